@@ -114,6 +114,16 @@ func c05Path(c *run.Ctx, idx uint64) {
 		if g.Dx() > 0 && g.Dy() > 0 {
 			g.Max.X = g.Min.X
 		}
+		if r.Chance(1, 3) {
+			// described with its corners the wrong way round in x, in y or in both
+			// (a struct literal: image.Rect would have swapped them)
+			d := image.Pt(r.Pick(0, 6, 6), r.Pick(11, 0, 11))
+			g = image.Rectangle{Min: g.Min.Add(d), Max: g.Min}
+			if r.Bool() {
+				g.Min.Y, g.Max.Y = g.Max.Y, g.Min.Y+3
+			}
+			c.Count("inverted_target_rectangles", 1)
+		}
 		cfg.given, cfg.rect = &g, image.Rectangle{}
 		c.Count("empty_target_rectangles", 1)
 	}
